@@ -1,1 +1,6 @@
 import Ypv.Props.C04
+#print axioms Ypv.C04.delete_eq_spec
+#print axioms Ypv.C04.delete_root_refused
+#print axioms Ypv.C04.reverse_positional_eq_set_removal
+#print axioms Ypv.C04.normalize_noDisturb
+#print axioms Ypv.C04.delete_frame
